@@ -88,6 +88,19 @@ func canonPat(p *pat) *pat {
 	for i, a := range p.args {
 		p.args[i] = canonPat(a)
 	}
+	if p.op == "slice" && len(p.args) == 3 && p.args[2].lit != "" {
+		// a[lo:N] of an array [N]T is a[lo:] (as in canonSlice)
+		root := p.args[0]
+		if root.op == "obj" && len(root.args) > 0 {
+			root = root.args[0]
+		}
+		if root.op == "alloc" && strings.HasPrefix(root.name, "[") {
+			if i := strings.Index(root.name, "]"); i > 1 && root.name[1:i] == p.args[2].lit {
+				p.args[2] = &pat{lit: "none"}
+			}
+		}
+		return p
+	}
 	if p.op != "bin" || len(p.args) != 2 {
 		return p
 	}
